@@ -459,4 +459,14 @@ def run(ctx, chk):
                     chk.ob('C13.P8', 'refid:packed-verbatim', verbatim, ef['site'][2],
                            'the reference id conversion reads the characters of %s%s' % (fmt(a0)[:60], '' if verbatim else
                            ' -- not of its argument: ids that differ only by the transformation no longer match what chronyd reports'))
+            # every successful exit is the packing of the characters: an exit that returns a *parsed number* (`EC20` read as
+            # hexadecimal) gives some names a value chronyd never reports for them
+            if p.kind == 'return' and p.value[0] == 'agg' and p.value[2] == 'Ok':
+                parsed = sorted({x[2][0].split('::')[-1] for x in psi.walk(p.value) if x[0] == 't' and x[1] == 'call' and
+                                 x[2][0].split('::')[-1] in ('from_str_radix', 'parse', 'from_str', 'from_str_radix_unchecked')})
+                read_chars = any(ef['kind'] == 'call' and ef['callee'].startswith('std::str::') and
+                                 ef['callee'].split('::')[-1] in ('bytes', 'as_bytes', 'chars', 'char_indices') for ef in p.effects)
+                chk.ob('C13.P8', 'refid:every-ok-exit-packs-the-characters', read_chars and not parsed, p.where[2],
+                       'an Ok exit of the reference-id conversion %s' % ('packs the characters it read' if read_chars and not parsed else
+                       'returns %s' % ('a number parsed by %s' % parsed if parsed else 'a value built without reading the characters')))
         chk.floor('C13.P8', 'character reads in the reference-id conversion', n8, 1)
